@@ -1,7 +1,8 @@
 (* C14 -- Reversal and reverse-complement are involutions that commute with
    output.  Only statements, each closed by [exact] of a lemma from Proofs/. *)
 From Tola Require Import Py.Base Model.Fragment Model.Scaffold Model.Fasta Model.FastaSpec
-  Proofs.Chunks.
+  Proofs.Chunks Proofs.StreamFinal.
+From Tola Require Model.Stream Proofs.Stream.
 
 (* reversing a scaffold twice gives back the original rows *)
 Theorem C14_rows_reverse_involutive : forall rows, rows_reverse (rows_reverse rows) = rows.
@@ -59,6 +60,23 @@ Theorem C14_rev_chunks_chunkwise : forall file buf i residues s e cf cr,
   cr = rev (map reverse_complement cf).
 Proof. exact rev_chunks_chunkwise. Qed.
 Print Assumptions C14_rev_chunks_chunkwise.
+
+(* Streaming a reversed scaffold yields the header followed by the wrapped
+   reverse complement of the body streamed for the original, for every buffer
+   size and line length, for rows whose fragments have strand +1 or -1 and a
+   gap character that is its own complement (N is).  Strand 0 is excluded: see
+   C14_strand0_refuted. *)
+Theorem C14_stream_reverse : forall file idx seqs buf L gap_char name rows body,
+  1 <= buf -> (1 <= L)%nat ->
+  Proofs.Stream.seqs_accessible file idx seqs ->
+  gaps_nonneg rows ->
+  complement gap_char = gap_char ->
+  Forall (fun r => match r with RF f => f_strand f = 1 \/ f_strand f = -1 | RG _ => True end) rows ->
+  rows_bytes seqs gap_char rows = Some body ->
+  Model.Stream.write_scaffold file idx buf (Z.of_nat L) gap_char name (rows_reverse rows)
+  = Ok (GT :: name ++ LF :: wrap_body L (reverse_complement body)).
+Proof. exact stream_reverse. Qed.
+Print Assumptions C14_stream_reverse.
 
 (* the known finding: a strand-0 fragment is unchanged by reversal (hence read
    forward in both orientations) *)
